@@ -67,6 +67,7 @@ type Loader struct {
 	pkgs    map[string]*Pkg   // by import path
 	fake    map[string]*types.Package
 	typeErr int
+	mem     map[string][]byte // in-memory repository (self-test): relative path -> source
 }
 
 var versionElem = regexp.MustCompile(`^v[0-9]+$`)
@@ -100,6 +101,24 @@ func (l *Loader) readFile(abs string) ([]byte, error) {
 }
 
 func (l *Loader) parseDir(rel string) ([]*ast.File, error) {
+	if l.mem != nil {
+		var names []string
+		for n := range l.mem {
+			if filepath.ToSlash(filepath.Dir(n)) == rel {
+				names = append(names, n)
+			}
+		}
+		sort.Strings(names)
+		var files []*ast.File
+		for _, n := range names {
+			f, err := parser.ParseFile(l.fset, n, l.mem[n], parser.ParseComments|parser.SkipObjectResolution)
+			if err != nil {
+				return nil, err
+			}
+			files = append(files, f)
+		}
+		return files, nil
+	}
 	dir := filepath.Join(l.repo, rel)
 	ents, err := os.ReadDir(dir)
 	if err != nil {
